@@ -40,10 +40,10 @@ WFBody(fn, params, va, b) ==
   /\ \A i \in 1..Len(b) :
        /\ b[i] = "#" => (~fn \/ (i < Len(b) /\ (b[i + 1] = "__VA_ARGS__" \/ \E j \in 1..Len(params) : params[j] = b[i + 1])))
        /\ b[i] \in {"__VA_ARGS__", "__VA_OPT__"} => va
-       \* unspecified order of evaluation: # next to ##, ## next to ##
-       /\ (b[i] = "##" /\ i > 2) => b[i - 2] \notin {"#", "##"}
-       /\ (b[i] = "##" /\ i < Len(b)) => b[i + 1] \notin {"#", "##", "__VA_OPT__"}
-       /\ (b[i] = "##" /\ i > 1) => b[i - 1] # ")" \/ ~va
+       \* unspecified order of evaluation: # next to ## (chains of ## are given a value only where
+       \* every order yields the same tokens, see PasteClass)
+       /\ (b[i] = "##" /\ i > 2) => b[i - 2] # "#"
+       /\ (b[i] = "##" /\ i < Len(b)) => b[i + 1] \notin {"#", "##"}
   \* a lone # in an object-like macro is an ordinary token, but not one our projection can follow
   /\ ~fn => \A i \in 1..Len(b) : b[i] # "#"
 
@@ -59,7 +59,8 @@ Line(k, m) == [k |-> k, m |-> m]
 Obj(m, Items, n)          == DefLines(m, FALSE, <<>>, FALSE, Items, n)
 Fn(m, params, Items, n)   == DefLines(m, TRUE, params, FALSE, Items, n)
 Va(m, params, Items, n)   == DefLines(m, TRUE, params, TRUE, Items, n)
-Static(slots, texts) == [slots |-> slots, texts |-> texts, free |-> {}, d0 |-> {<<>>}]
+NoCmd == [tab |-> <<>>, bare |-> {}]      \* no -D option
+Static(slots, texts) == [slots |-> slots, texts |-> texts, free |-> {}, d0 |-> {NoCmd}]
 Dyn(lines, texts, inits) == [slots |-> <<>>, texts |-> texts, free |-> lines, d0 |-> inits]
 
 \* fo: F(x) and O over the raw token alphabet (everything interacts with everything, including
@@ -112,21 +113,61 @@ NeFam == Static(<< Fn("F", <<"x">>, {<<"x">>, <<"a">>, <<"(", "x", ")">>, <<"G",
                                           <<"G", "(", "y", ",", "x", ")">>, <<"F">>, <<"[", "x", "]">>}
                                          \cup (IF SizeSt > 1 THEN {<<"+">>} ELSE {}), SizeNe) >>, NeTexts)
 
+\* li: string / character literal arguments with escapes (escaped backslash before the closing
+\*     quote, quotes, commas and parentheses inside literals) in every argument position, next to
+\*     commas and closing parentheses, in nested invocations; the renderer also writes them
+\*     without white space and over several lines
+LiLits == << "\"a\\\\\"", "'\\\\'", "\"\\\"\"", "\"a,b\"", "\"a)b\"", "\"(\"", "'x'", "'\\''", "\"a\\\\\\\"b\"" >>
+LiTextsOf(L, M) == << <<"F","(",L,",","1",")">>, <<"F","(","1",",",L,")">>, <<"G","(",L,")">>,
+                      <<"F","(","G","(",L,")",",",M,")">>, <<"G","(","F","(",L,",","2",")",")","a">>,
+                      <<"F","(",L,",",M,")">> >>
+LiTexts(lo, hi) == Flat([i \in 1..(hi - lo + 1) |-> LiTextsOf(LiLits[lo + i - 1], LiLits[((lo + i - 1) % Len(LiLits)) + 1])])
+\* (three families: one dumped record must stay below the 8 kB a TLC worker writes atomically)
+LiFam(lo, hi) == Static(<< Fn("F", <<"x", "y">>, {<<"x">>, <<"y">>, <<"#", "x">>, <<"#", "y">>, <<"|">>}, 2),
+                           Fn("G", <<"x">>, {<<"x">>, <<"#", "x">>, <<"(", "x", ")">>}, 1) >>, LiTexts(lo, hi))
+
+\* p3 / pv: chains of two ## (three operands: parameters, fixed tokens, __VA_ARGS__, __VA_OPT__),
+\*     every operand empty in turn at the call sites
+Chains(Ops, Pre, Post) == {p \o o1 \o <<"##">> \o o2 \o <<"##">> \o o3 \o q :
+                             o1 \in Ops, o2 \in Ops, o3 \in Ops, p \in Pre, q \in Post}
+P3Texts == << <<"F","(","a",",","b",",","c",")">>, <<"F","(",",","b",",","c",")">>, <<"F","(","a",",",",","c",")">>,
+              <<"F","(","a",",","b",",",")">>, <<"F","(",",",",","c",")">>, <<"F","(","a",",",",",")">>,
+              <<"F","(",",","b",",",")">>, <<"F","(",",",",",")">>, <<"F","(","1",",",",","2",")">>,
+              <<"F","(","1",",","2",",","3",")">>, <<"F","(","O",",",",","O",")">> >>
+P3Fam == Static(<< Obj("O", {<<"1">>}, 1),
+                   Fn("F", <<"x", "y", "z">>, Chains({<<"x">>, <<"y">>, <<"z">>, <<"a">>}, {<<>>, <<"b">>}, {<<>>, <<"c">>}), 1) >>,
+                P3Texts)
+PvTexts == << <<"H","(","a",")">>, <<"H","(","a",",",")">>, <<"H","(","a",",","b",")">>, <<"H","(",",","b",")">>,
+              <<"H","(",",",")">>, <<"H","(",")">>, <<"H","(","a",",","b",",","c",")">>, <<"H","(","a",",","O",")">> >>
+PvFam == Static(<< Obj("O", {<<>>, <<"1">>}, 1),
+                   Va("H", <<"x">>, Chains({<<"x">>, <<"__VA_ARGS__">>, <<"a">>, <<"__VA_OPT__", "(", "v", ")">>},
+                                           {<<>>, <<"b">>}, {<<>>, <<"c">>}), 1) >>, PvTexts)
+
 \* dy: #undef, redefinition, push_macro / pop_macro between uses
 DyLines == {DefLine("O", FALSE, <<>>, FALSE, b) : b \in {<<"1">>, <<"2">>, <<"O", "+", "1">>}}
            \cup {DefLine("F", TRUE, <<"x">>, FALSE, <<"x", "O">>)}
            \cup {Line(k, m) : k \in {"undef", "push", "pop"}, m \in {"O", "F"}}
            \cup {TextLine(<<"O">>), TextLine(<<"F", "(", "O", ")">>)}
 DyTexts == << <<"O">>, <<"F", "(", "O", ")">>, <<"F">> >>
-DyFam == Dyn(DyLines, DyTexts, {<<>>})
+DyFam == Dyn(DyLines, DyTexts, {NoCmd})
 
-\* cd: command-line definitions (-D) as the initial macro table
-D0(o, f) == [O |-> [fn |-> FALSE, params |-> <<>>, va |-> FALSE, body |-> o],
-             F |-> [fn |-> TRUE, params |-> <<"x">>, va |-> FALSE, body |-> f]]
-CdFam == Dyn(DyLines, DyTexts, {D0(<<"1">>, <<"x", "+", "O">>), D0(<<"O", "+", "1">>, <<"#", "x">>),
-                                [O |-> [fn |-> FALSE, params |-> <<>>, va |-> FALSE, body |-> <<"(", "2", ")">>]]})
+\* cd: command-line definitions (-D) as the initial macro table: object-like and function-like,
+\*     values containing = == >= , white space, parentheses, quotes; -DNAME without a value
+\*     (defines NAME as 1: POSIX c99 / every compiler driver, whose options interrogate takes)
+ObjD(b) == [fn |-> FALSE, params |-> <<>>, va |-> FALSE, body |-> b]
+FnD(b)  == [fn |-> TRUE, params |-> <<"x">>, va |-> FALSE, body |-> b]
+Cmd(o, f) == [tab |-> [O |-> ObjD(o), F |-> FnD(f)], bare |-> {}]
+CmdO(o)   == [tab |-> [O |-> ObjD(o)], bare |-> {}]
+CdTabs == { Cmd(<<"1">>, <<"x", "+", "O">>), Cmd(<<"O", "+", "1">>, <<"#", "x">>), CmdO(<<"(", "2", ")">>),
+            CmdO(<<"a", ">=", "b">>), CmdO(<<"a", "=", "b">>), CmdO(<<"\"a=b\"">>), CmdO(<<>>),
+            Cmd(<<"2">>, <<"(", "(", "x", ")", "==", "(", "O", ")", ")">>),
+            Cmd(<<"a", "=", "1">>, <<"x", "=", "O", ",", "'x'">>),
+            [tab |-> [O |-> ObjD(<<"1">>)], bare |-> {"O"}],
+            [tab |-> [O |-> ObjD(<<"1">>), F |-> FnD(<<"x", "==", "O">>)], bare |-> {"O"}] }
+CdFam == Dyn(DyLines, DyTexts, CdTabs)
 
-Fam == [ fo |-> FoFam, st |-> StFam, va |-> VaFam, ch |-> ChFam, ne |-> NeFam, dy |-> DyFam, cd |-> CdFam ]
+Fam == [ fo |-> FoFam, st |-> StFam, va |-> VaFam, ch |-> ChFam, ne |-> NeFam, li1 |-> LiFam(1, 3), li2 |-> LiFam(4, 6), li3 |-> LiFam(7, 9), p3 |-> P3Fam, pv |-> PvFam,
+         dy |-> DyFam, cd |-> CdFam ]
 FreeLen(f) == IF f = "cd" THEN CdLen ELSE DynLen
 
 \* static family: one #define per slot, then all its Text lines in one step;
@@ -149,7 +190,7 @@ Allowed(l) == l.k = "def" /\ l.m \in DOMAIN defs =>
                 defs[l.m] = [fn |-> l.fn, params |-> l.params, va |-> l.va, body |-> l.body]
 
 Init == /\ fam \in Families /\ prog = <<>>
-        /\ d0 \in Fam[fam].d0 /\ MInit(d0)
+        /\ d0 \in Fam[fam].d0 /\ MInit(d0.tab)
 
 Next == \/ /\ Len(prog) < NFree(fam)
            /\ \E l \in LinesAt(fam, Len(prog) + 1) :
